@@ -624,6 +624,32 @@ func (s *Sim) refetchClass(r *Req) int8 {
 	return 1
 }
 
+// loadedAnew: after the latest delete the gateway derived for variant v (from
+// a not-found answer, while the service still has the resource) a get request
+// sent later has brought its data again.
+func (s *Sim) loadedAnew(v *Variant) bool {
+	var after uint64
+	for _, e := range v.Stream {
+		if e.Kind == "delete" && e.Derived && e.Via != nil && e.Via.Delivered {
+			after = e.Via.DlvSeq
+		}
+	}
+	if after == 0 {
+		return false
+	}
+	s.mu.Lock()
+	defer s.mu.Unlock()
+	res := s.W.Res[v.Name]
+	for _, q := range s.tr.reqs {
+		if q.Type == "get" && q.Name == v.Name && q.Seq > after && q.GotData && q.Delivered {
+			if n, ok := res.normalise(q.Query); ok && n == v.Query {
+				return true
+			}
+		}
+	}
+	return false
+}
+
 // isRefetch: r is certainly a reset re-fetch.
 func (s *Sim) isRefetch(r *Req) bool { return r.Type == "get" && r.Rf == 2 }
 
